@@ -241,7 +241,7 @@ func (env *CEnv) object(obj types.Object) CVal {
 
 func (env *CEnv) derefCell(ref Term, elem types.Type) CVal {
 	so := env.reg().SortOf(elem)
-	if _, ok := elem.Underlying().(*types.Struct); ok {
+	if _, ok := under(elem).(*types.Struct); ok {
 		return CVal{T: Select(env.cur.H(compStruct(so), ArrSort(SInt, so)), ref), Type: elem}
 	}
 	return CVal{T: Select(env.cur.H(compCell(so), ArrSort(SInt, so)), ref), Type: elem}
@@ -335,7 +335,7 @@ func (env *CEnv) unary(x *EUnary) CVal {
 	case "-":
 		return CVal{T: app(SInt, "-", v.T), Type: v.Type}
 	case "*":
-		pt, ok := v.Type.Underlying().(*types.Pointer)
+		pt, ok := under(v.Type).(*types.Pointer)
 		if !ok {
 			env.fail("dereference of non-pointer %s", v.Type)
 		}
@@ -445,10 +445,10 @@ func (env *CEnv) fieldOf(v CVal, name string) CVal {
 }
 
 func lookupFieldAnyPkg(t types.Type, name string) (types.Object, []int) {
-	if p, ok := t.Underlying().(*types.Pointer); ok {
+	if p, ok := under(t).(*types.Pointer); ok {
 		t = p.Elem()
 	}
-	st, ok := t.Underlying().(*types.Struct)
+	st, ok := under(t).(*types.Struct)
 	if !ok {
 		return nil, nil
 	}
@@ -462,12 +462,12 @@ func lookupFieldAnyPkg(t types.Type, name string) (types.Object, []int) {
 
 func (env *CEnv) stepField(v CVal, idx int) CVal {
 	t := v.Type
-	if pt, ok := t.Underlying().(*types.Pointer); ok {
+	if pt, ok := under(t).(*types.Pointer); ok {
 		// implicit dereference
 		v = env.derefCell(v.T, pt.Elem())
 		t = pt.Elem()
 	}
-	st, ok := t.Underlying().(*types.Struct)
+	st, ok := under(t).(*types.Struct)
 	if !ok {
 		env.fail("field access on non-struct %s", t)
 	}
@@ -488,7 +488,7 @@ func (env *CEnv) indexOf(v, i CVal) CVal {
 			t = c
 		}
 	}
-	switch u := t.Underlying().(type) {
+	switch u := under(t).(type) {
 	case *types.Slice:
 		es := reg.SortOf(u.Elem())
 		if v.IsSeq {
@@ -590,7 +590,7 @@ func inferTsubst(cur map[string]types.Type, t types.Type) map[string]types.Type 
 	if t == nil {
 		return cur
 	}
-	if p, ok := t.Underlying().(*types.Pointer); ok {
+	if p, ok := under(t).(*types.Pointer); ok {
 		t = p.Elem()
 	}
 	n, ok := types.Unalias(t).(*types.Named)
@@ -640,7 +640,7 @@ func (env *CEnv) bindVar(b Binder, name string) CVal {
 	ty := env.run.eng.resolveType(b.Type, env.pkg, env.tsubst)
 	so := env.reg().SortOf(ty)
 	if env.seqBinders && b.Type.Kind == "slice" {
-		es := env.reg().SortOf(ty.Underlying().(*types.Slice).Elem())
+		es := env.reg().SortOf(under(ty).(*types.Slice).Elem())
 		return CVal{T: Term{name, ArrSort(SInt, es)}, Type: ty, IsSeq: true}
 	}
 	return CVal{T: Term{name, so}, Type: ty}
@@ -673,7 +673,7 @@ func (env *CEnv) call(c *ECall) CVal {
 				t = co
 			}
 		}
-		switch u := t.Underlying().(type) {
+		switch u := under(t).(type) {
 		case *types.Slice:
 			if v.IsSeq {
 				env.fail("len of a ghost sequence")
@@ -913,7 +913,7 @@ func unifyTypeExpr(te *TypeExpr, t types.Type, out map[string]types.Type) {
 	t = types.Unalias(t)
 	switch te.Kind {
 	case "ptr":
-		if p, ok := t.Underlying().(*types.Pointer); ok {
+		if p, ok := under(t).(*types.Pointer); ok {
 			unifyTypeExpr(te.Args[0], p.Elem(), out)
 		}
 	case "slice":
